@@ -9,7 +9,9 @@
 #include <asmjit/core.h>
 #include <asmjit/x86.h>
 #include <asmjit/a64.h>
+#include <asmjit/core/rastack_p.h>
 #include "vh.h"
+#include <map>
 
 using namespace asmjit;
 
@@ -255,9 +257,42 @@ static std::string step_seq(const std::vector<std::string>& w) {
   return finish(arch_i, env, frame, extra);
 }
 
+// ras <size:align:flags:use,...>  ->  ok <alignment> <stack_size> <id:weight:offset ...>   (slots in the order after the sort)
+static std::string step_ras(const std::vector<std::string>& w) {
+  if (w.size() != 2) return "bad-op";
+  Arena arena(4096);
+  RAStackAllocator alloc;
+  alloc.reset(&arena);
+  std::map<RAStackSlot*, size_t> ids;
+  if (w[1] != "-") {
+    for (const std::string& t : split(w[1], ',')) {
+      std::vector<std::string> a = split(t, ':');
+      uint64_t size, align, flags, use;
+      if (a.size() != 4 || !vh::parse_u64(a[0], size) || !vh::parse_u64(a[1], align) || !vh::parse_u64(a[2], flags) || !vh::parse_u64(a[3], use))
+        return "bad-op";
+      RAStackSlot* slot = alloc.new_slot(0, uint32_t(size), uint32_t(align), uint32_t(flags));
+      if (!slot) return "err OutOfMemory";
+      slot->add_use_count(uint32_t(use));
+      size_t id = ids.size();
+      ids[slot] = id;
+    }
+  }
+  Error e = alloc.calculate_stack_frame();
+  if (e != Error::kOk) return "err " + err_name(e);
+  char buf[96];
+  snprintf(buf, sizeof(buf), "ok %u %u", alloc.alignment(), alloc.stack_size());
+  std::string out = buf;
+  for (RAStackSlot* slot : alloc.slots()) {
+    snprintf(buf, sizeof(buf), " %zu:%u:%d", ids[slot], slot->weight(), slot->offset());
+    out += buf;
+  }
+  return out;
+}
+
 static std::string step(const std::string& line) {
   std::vector<std::string> w = vh::words(line);
   if (!w.empty() && w[0] == "seq") return step_seq(w);
+  if (!w.empty() && w[0] == "ras") return step_ras(w);
   if (w.size() != 17 || w[0] != "frame") return "bad-op";
   uint64_t arch_i, cc_i, win, arg_stack, attrs, used[4], upd, lsz, lal, csz, cal, sareg;
   if (!vh::parse_u64(w[1], arch_i) || !vh::parse_u64(w[2], cc_i) || !vh::parse_u64(w[3], win) || !vh::parse_u64(w[4], arg_stack) ||
